@@ -11,10 +11,17 @@ RULE = ("exhaustive sequences over the 14 token kinds (position-dependent canoni
         "(thorough) from the top level and up to length 4 / 5 behind 12 contexts that open the fast paths (token/quoted/i32 key, "
         "'= {', primitive arrays, mixed containers); generated well-formed documents x key/value encodings with an independently "
         "computed expected tape; random token sequences; random byte strings over an id-heavy alphabet; every prefix and "
-        "single-byte corruptions of documents; parse into a previously used tape. "
+        "single-byte corruptions of documents; parse into a previously used tape; "
+        # >>> a_c03
+        "documents with mixed containers at any depth (array -> key-value list at the k-th element, object ending in bare values) "
+        "with an expected tape by construction; chains of 2..6 parses into one tape alternating the two entry points; every input "
+        "accepted in any of the streams re-run against the real Lexer's token sequence (bt.mir). "
+        # <<< a_c03
         "non-trivial = at least one of the two parsers accepted the input, or the input has >= 3 tokens")
 TRUSTED = ["Vec growth / copyless::VecHelper (push = snoc on a list)",
-           "harness/src/fam_bintape.rs printing of BinaryToken and its structural checker"]
+           "harness/src/fam_bintape.rs printing of BinaryToken and its structural checker",
+           # a_c03
+           "harness/src/fam_bintape.rs mod mirror (raw token stream through jomini::binary::Lexer, untape, the two list comparisons)"]
 ASSUMPTIONS = ["the model parameter fx=false is the code as it is; fx=true (I64 excluded from the three id-class tests) is the repaired parser the unconditional theorem is about"]
 
 PROFILES = ["release", "debug"]
@@ -443,6 +450,6 @@ def search(ctx):
 
 
 CLAIM = {
-    "text": "Coq theorems over a faithful Gallina model of BinaryTapeParser::parse::<ENABLE_OPTIMIZATION> (one definition with the const generic as a boolean; ParseState discriminants and LexemeId constants regenerated from the source each run): the optimised and the reference interpretation produce the same observation (tape or rejection) for ALL byte strings once the I64 id is excluded from the three id-class tests (model parameter fx), the unchanged code is refuted by a vm_compute witness (known finding B), and both interpretations only produce structurally sound tapes; model tied to the code by differential execution on exhaustive token sequences, documents, mutations and random bytes; oracles on the implementation: optimised = reference, reference = independently computed expected tape, structural checker on the real tapes",
+    "text": "Coq theorems over a faithful Gallina model of BinaryTapeParser::parse::<ENABLE_OPTIMIZATION> (one definition with the const generic as a boolean; ParseState discriminants and LexemeId constants regenerated from the source each run): the optimised and the reference interpretation produce the same observation (tape or rejection) for ALL byte strings once the I64 id is excluded from the three id-class tests (model parameter fx), the unchanged code is refuted by a vm_compute witness (known finding B), and both interpretations only produce structurally sound tapes; model tied to the code by differential execution on exhaustive token sequences, documents, mutations and random bytes; oracles on the implementation: optimised = reference, reference = independently computed expected tape, structural checker on the real tapes; (wave 4) every accepted tape is a subsequence of the lexer's token sequence of the same bytes (theorem, unconditional) and equals it up to inserted `{}` pairs unless the only_empties branch meets an odd remainder (theorem + refuting witness, known finding L), checked on every accepted input of every stream with the real Lexer; mixed-container documents with expected tapes; used-tape chains across both entry points",
     "technique": "machine-checked proof in Coq over an executable model + model/implementation correspondence by extraction",
 }
